@@ -19,6 +19,16 @@ def decode_case(prop, case):
     return case
 
 CONFIG = {
+ "C01": {
+  "engine": "core",
+  "rule": "15 binary operators x 16 kinds x 6x6 operand shape classes (scalar, 1x1, 1xN, Nx1, NxN, MxN; quick tier: all class pairs for - / % ^ < >=, a seeded third for the others; unaccepted operator/kind pairs sampled 1/12) with compatible and deliberately mismatched sizes, immutable and mutable operands, plus unary - and ! over all kinds/classes; values from per-side pools with kind boundaries so operand order and overflow are observable; distinct = distinct case lines",
+  "trusted": ["f32/f64 + - * / comparisons are the hardware IEEE operations (model parameter FloatImpl, instantiated with Lean Float/Float32)",
+              "float % is computed exactly in the driver (fmod is always representable); float ^ only on integer base and small non-negative integer exponent",
+              "c64 ordering comparisons (by libm hypot) are outside the model and not generated"],
+  "assumptions": ["both operands have the same element kind (mixed-kind fallback conversions are outside the property)", "integer magnitudes below 2^53 for 64/128-bit kinds (literal spelling limit)"],
+  "level_text": "Machine-checked theorems (Lean 4), generic in the scalar function and hence valid for every operator and element kind: whenever the lifted operator returns a value it has the broadcast shape and every element is the scalar operator applied to the elements that meet there (scalar/matrix, equal shapes, matrix with matching column or row vector), for all shapes and storage forms; incompatible shapes are rejected; acceptance is closed under shape for total scalar functions; integer operators are exact when representable and errors otherwise; comparisons and Boolean algebra stated outright; floats are the IEEE parameter. The model (dispatch over RowDVector/DVector/DMatrix and the eight kernel families) is tied to the code by class-exhaustive differential runs through Interpreter::interpret.",
+  "level_note": "Trusted: Lean kernel + propext/Classical.choice/Quot.sound; IEEE float hardware; harness rendering (annotated definitions). Fixed-size storage forms (behind the stdlib feature set, which does not compile) are not covered. A fix: commit added the missing shape checks to the MDMD/RDRD/VDVD arms (C01-D1/D2).",
+ },
  "C07": {
   "engine": "bytecode",
   "rule": "CRC model vs crc32fast on random byte strings; 14 emitted files x (pristine load, byte-exact re-encode, all single-bit flips and all truncations for 3 files (thorough: all), sampled flips/truncations/bursts<=32 bits incl. bursts reaching the trailer); random byte strings; random instruction lists through write_to/from_bytes; distinct = distinct case lines",
